@@ -51,6 +51,12 @@ func new(input string) *Lexer {
 
 // ReadChar advances the lexer to the next character in the input.
 func (l *Lexer) ReadChar() {
+	// Already at the end of the input: stay there, so that the cursor
+	// (position, line, column) never runs past the source.
+	if l.position >= len(l.input) && l.readPosition > l.position {
+		return
+	}
+
 	// If the previous character was a newline, reset column
 	if l.CurrentChar == '\n' {
 		l.Line++
